@@ -17,7 +17,9 @@ EXPLANATION = (
     "endpoint-form entry. R05.3 stored form: prx/pry are centre + (rx, 0) and centre + (0, ry) rotated about the centre by the "
     "x-axis rotation; sweep is the extent in radians. R05.4 degenerate siblings: the state written by the early exit "
     "(coincident endpoints / zero radius) is read off the code; the evaluators' branches for that state (npoint, numpy "
-    "npoint, length, bbox) must implement the straight segment: linear interpolation, |end - start|, min/max box. Not "
+    "npoint, length, bbox) must implement the straight segment: linear interpolation, |end - start|, min/max box. "
+    "The cosine clamp before acos is checked as a pure two-sided range clamp: values above 1 go to 1 AND values below -1 go to -1 "
+    "(a one-sided abs() clamp sends -1.0000000000000002, which too-small radii produce, to +1: the half turn becomes no arc). Not "
     "decided: that sampled points satisfy the ellipse equation numerically; behaviour at exactly half a turn."
 )
 ASSUMPTIONS = [
